@@ -6,6 +6,7 @@ soundness theorem C12 (Props/C12Full.lean).
 -/
 import CoCoVerif.Lemmas.EncodeData
 import CoCoVerif.Model.Operands
+import CoCoVerif.Lemmas.EncodeResolve
 
 namespace CoCo.Asm
 open CoCo.Gen (InstrRow)
@@ -264,33 +265,44 @@ def lookSym (t : SymTab) (x : Value) : R Value :=
   | .symbol name _ => (match t.get? name with | some s => .ok s | Option.none => .error .other)
   | x => .ok x
 
-theorem shape_resolve_expr_eq (l r : Value) (op : Char) (mode : Mode) (ae : Bool) (t : SymTab) :
+theorem ConstTable.notExpr {t : SymTab} (ht : ConstTable t) {k : Str} {s : Value} (h : t.get? k = some s) :
+    s.isExpression = false := by
+  have := ht.get h
+  cases s <;> simp_all [Value.isNumeric, Value.isExpression]
+
+/-- a table of constants holds no EQU expression: the lookup is the plain one (as before fix 0f280be) -/
+theorem getSymF_const {t : SymTab} (ht : ConstTable t) (n : Nat) (name : Str) :
+    getSymF n t name = (match t.get? name with | some s => .ok s | Option.none => .error .other) := by
+  cases hg : t.get? name with
+  | none => rw [getSymF_none hg]
+  | some s => rw [getSymF_plain hg (ht.notExpr hg)]
+
+theorem lookStep_const {t : SymTab} (ht : ConstTable t) (n : Nat) (x : Value) :
+    lookStep (getSymF n t) x = lookSym t x := by
+  cases x <;> first | rfl | exact getSymF_const ht n _
+
+theorem mapErr_ok {x : R Value} {v : Value}
+    (h : (match x with | .ok nv => (.ok nv : R Value) | .error _ => .error .other) = .ok v) : x = .ok v := by
+  cases x with
+  | ok v => exact h
+  | error e' => cases h
+
+theorem exprNum_isNumeric {m : Mode} {lm rm : Nat} {ln rn : Bool} {op : Char} {v : Value}
+    (h : exprNum m lm ln rm rn op = .ok v) : v.isNumeric = true := by
+  unfold exprNum at h
+  cases hr : exprArith op (if ln then -(lm : Int) else lm) (if rn then -(rm : Int) else rm) with
+  | none => rw [hr] at h; cases h
+  | some z => rw [hr] at h; exact shape_numericOfStr_isNumeric (mapErr_ok h)
+
+/-- `ExpressionValue.resolve` under a table of constants: both operands looked up, then combined -/
+theorem shape_resolve_expr_eq {t : SymTab} (ht : ConstTable t) (l r : Value) (op : Char) (mode : Mode) (ae : Bool) :
     (Value.expr l r op mode ae).resolve t =
       (match lookSym t l, lookSym t r with
-       | .ok l', .ok r' =>
-         let m := if l'.isExtendedLike || r'.isExtendedLike then Mode.extended else Mode.direct
-         match l', r' with
-         | .numeric lm _ _ ln, .numeric rm _ _ rn =>
-           let li : Int := if ln then -(lm : Int) else lm
-           let ri : Int := if rn then -(rm : Int) else rm
-           let res : Option Int :=
-             if op == '+' then some (li + ri)
-             else if op == '-' then some (li - ri)
-             else if op == '*' then some (li * ri)
-             else if op == '/' then (if ri = 0 then Option.none else some (Int.tdiv li ri))
-             else some 0
-           match res with
-           | Option.none => .error .other
-           | some z =>
-             let s : Str := if z < 0 then '-' :: (toString z.natAbs).toList else (toString z.natAbs).toList
-             let m := if z > 255 && m == .direct then Mode.extended else m
-             match numericOfStr s Option.none m with
-             | .ok nv => .ok nv
-             | .error _ => .error .other
-         | _, _ =>
-           if l'.isAddress || r'.isAddress then .ok (.expr l' r' op mode true)
-           else .error .other
-       | _, _ => .error .other) := rfl
+       | .ok l', .ok r' => exprPost l' r' op mode
+       | _, _ => .error .other) := by
+  rw [resolve_eq_step]
+  simp only [resolveStep, lookStep_const ht]
+  rfl
 
 theorem lookV_notAddr {t : SymTab} (ht : ConstTable t) {x x' : Value} (hx : x.isAddress = false)
     (h : lookSym t x = .ok x') : x'.isAddress = false := by
@@ -309,7 +321,7 @@ theorem lookV_notAddr {t : SymTab} (ht : ConstTable t) {x x' : Value} (hx : x.is
 theorem resolve_expr_numeric_of {t : SymTab} (ht : ConstTable t) {l r : Value} {op : Char} {mode : Mode} {ae : Bool}
     (hl : l.isAddress = false) (hr : r.isAddress = false) {v' : Value}
     (h : (Value.expr l r op mode ae).resolve t = .ok v') : v'.isNumeric = true := by
-  rw [shape_resolve_expr_eq] at h
+  rw [shape_resolve_expr_eq ht] at h
   cases hL : lookSym t l with
   | error e => rw [hL] at h; cases h
   | ok l' =>
@@ -320,23 +332,20 @@ theorem resolve_expr_numeric_of {t : SymTab} (ht : ConstTable t) {l r : Value} {
       have al := lookV_notAddr ht hl hL
       have ar := lookV_notAddr ht hr hR
       dsimp only at h
+      unfold exprPost at h
       split at h
-      · split at h
-        · cases h
-        · split at h
-          · simp only [Except.ok.injEq] at h; subst h; exact shape_numericOfStr_isNumeric ‹_›
-          · cases h
+      · exact exprNum_isNumeric h
       · simp [al, ar] at h
 
 /-- a symbol under a table of constants resolves to a number (or fails) -/
 theorem resolve_symbol_numeric_of {t : SymTab} (ht : ConstTable t) {name : Str} {m : Mode} {v' : Value}
     (h : (Value.symbol name m).resolve t = .ok v') : v'.isNumeric = true := by
-  simp only [Value.resolve] at h
-  split at h
-  · cases h
-  · rename_i s hs
-    have hn := ht.get hs
-    cases s <;> simp_all [Value.isNumeric, Value.isAddress]
+  cases hg : t.get? name with
+  | none => rw [resolve_symbol_undefined hg] at h; cases h
+  | some s =>
+    rw [resolve_symbol_of_get hg (ht.notExpr hg)] at h
+    have hn := ht.get hg
+    cases s <;> simp_all [symPost, Value.isNumeric, Value.isAddress]
     exact shape_numericOfInt_isNumeric h
 
 
@@ -345,7 +354,8 @@ constants (or the resolution fails) -/
 theorem resolve_created_numeric {t : SymTab} (ht : ConstTable t) {v v' : Value} (hc : CreatedShape v)
     (hlr : v.isLeftRight = false) (hs : v.isStrV = false) (h : v.resolve t = .ok v') : v'.isNumeric = true := by
   cases v with
-  | numeric i hh m n => simp only [Value.resolve, Except.ok.injEq] at h; subst h; rfl
+  | numeric i hh m n =>
+    rw [resolve_eq_step] at h; simp only [resolveStep, Except.ok.injEq] at h; subst h; rfl
   | symbol name m => exact resolve_symbol_numeric_of ht h
   | expr l r op m ae =>
     cases ae with
